@@ -74,11 +74,16 @@ def check_case(spec: dict) -> dict:
         part = scan_outcome(pr.path(), pr.path(sub_rel)) if sub_rel else full
         # module-object entry point
         try:
-            rm = types.ModuleType("rootmod")
-            rm.__file__ = pr.path("__init__.py")
-            mm = types.ModuleType("submod")
-            mm.__file__ = pr.path((sub_rel + "/" if sub_rel else "") + "__init__.py")
-            ev_obj = get_evaluable_architecture_for_module_objects(rm, mm)
+            def package_object(name, rel):
+                """What 'import <package>' yields for this directory: __file__ is its __init__.py, or None (and only
+                __path__ is set) for a package without __init__.py."""
+                m = types.ModuleType(name)
+                init = (rel + "/" if rel else "") + "__init__.py"
+                m.__path__ = [pr.path(rel) if rel else pr.path()]
+                m.__file__ = pr.path(init) if init in spec["pyfiles"] else None
+                return m
+
+            ev_obj = get_evaluable_architecture_for_module_objects(package_object("rootmod", ""), package_object("submod", sub_rel))
             obj = ("ok", snapshot(ev_obj))
         except Exception as e:  # noqa: BLE001
             obj = ("error", f"{type(e).__name__}: {e}")
